@@ -192,6 +192,15 @@ def prepare_data(profile: str) -> None:
     _W.profile = profile
 
 
+# battery keys whose answers depend on each stale target (used to aim workloads at the modified file)
+STALE_KEYS = {
+    "device": ["dev:lpc5506", "qinfo:lpc5506", "qgroups"],
+    "defaults": ["devfeat:lpc5506/latest", "defaults:comm_buffer", "dev:lpc5506"],
+    "schema": ["sch:tz"],
+    "schema2": ["sch:general"],
+}
+AUDIT_WORKLOAD = [["key", k] for ks in STALE_KEYS.values() for k in ks] + [["cfg", 0], ["cfg", 1], ["cfg", 2], ["quick", 0], ["quick", 5], ["dev", 3]]
+
 STALE_TARGETS = {
     "device": ("devices/lpc5506/database.yaml", r"^  purpose: .*$", "  purpose: Stale Series %d"),
     "defaults": ("common/database_defaults.yaml", r"^    size: 0x1000\s*$", "    size: 0x%d000"),
@@ -377,9 +386,13 @@ class Run:
         by_cat, _ = self.ref
         out = []
         for cat, i in workload:
+            if cat == "key":
+                if i in self.ref[1]:
+                    out.append(i)
+                continue
             lst = by_cat[cat]
             out.append(lst[i % len(lst)])
-        return out
+        return out or [by_cat["quick"][0]]
 
     # -- process control
     def spawn(self, idx: int, spec: dict) -> Proc:
@@ -635,6 +648,8 @@ class Run:
         self.solo(wl, f"heal phase {pi}, second clean start")
         p3 = self.solo(wl, f"heal phase {pi}, third clean start")
         self.check_healed(p3, f"heal phase {pi}")
+        # audit: a last process asks for everything a stale phase may have touched, through whatever the cache now holds
+        self.solo(ph.get("audit", AUDIT_WORKLOAD), f"heal phase {pi}, audit of the healed cache")
 
     def check_healed(self, p3: Proc, where: str) -> None:
         if p3.result is None or p3.result.get("exc"):
@@ -764,8 +779,8 @@ def execute(plan: dict) -> dict:
 
 def families(tier: str):
     if tier == "quick":
-        return [("sched", 220), ("damage", 60), ("sweepq", 12), ("sweepd", 12), ("sweepfull", 1)]
-    return [("sched", 12000), ("damage", 3000), ("sweepq", 700), ("sweepd", 900), ("full", 32), ("sweepfull", 6)]
+        return [("sched", 220), ("damage", 60), ("stale", 60), ("sweepq", 12), ("sweepd", 12), ("sweepfull", 1)]
+    return [("sched", 12000), ("damage", 3000), ("stale", 3000), ("sweepq", 700), ("sweepd", 900), ("full", 32), ("sweepfull", 6)]
 
 
 def _workload(rng: random.Random, n_max: int = 6, need_cfg: bool = False):
@@ -838,6 +853,30 @@ def gen_plan(family: str, i: int, rng: random.Random, tier: str) -> dict:
             phases.append(_procs_phase(rng, min(nmax, 4), crash_rate=0.1))
         phases.append({"kind": "heal"})
         return {"profile": profile, "phases": phases}
+    if family == "stale":
+        # warm cache holding the target's records, the data file changes, then processes that reach the target
+        # through different orders of other queries (a stale record must not survive by being merged back)
+        target = rng.choice(sorted(STALE_TARGETS))
+        tkeys = [["key", k] for k in STALE_KEYS[target]]
+
+        def aimed(n_other: int):
+            wl = [["cfg", rng.randrange(6)] for _ in range(n_other)] + [rng.choice(tkeys)] + ([["quick", rng.randrange(64)]] if rng.random() < 0.4 else [])
+            if rng.random() < 0.5:
+                rng.shuffle(wl)
+            return wl
+
+        warm = {"kind": "procs", "procs": [{"flavour": "normal", "workload": [["cfg", rng.randrange(6)]] + tkeys + [["cfg", rng.randrange(6)]]}], "sched": [], "sched_seed": 0}
+        phases = [warm, {"kind": "stale", "target": target, "variant": rng.randrange(3)}]
+        n = rng.choice([1, 1, 2, 3])
+        procs = [{"flavour": "normal", "workload": aimed(rng.randint(1, 3))} for _ in range(n)]
+        if rng.random() < 0.3:
+            procs[0]["crash"] = {"tear_commit": rng.randrange(2), "num": rng.randrange(8), "den": 8}
+        phases.append({"kind": "procs", "procs": procs, "sched": [rng.randrange(16) for _ in range(200)] if n > 1 else [], "sched_seed": rng.randrange(1 << 30)})
+        if rng.random() < 0.4:
+            phases.append({"kind": "stale", "target": rng.choice(sorted(STALE_TARGETS)), "variant": rng.randrange(3)})
+            phases.append({"kind": "procs", "procs": [{"flavour": "normal", "workload": aimed(2)}], "sched": [], "sched_seed": 0})
+        phases.append({"kind": "heal"})
+        return {"profile": "tiny", "phases": phases}
     if family == "damage":
         profile = "tiny" if rng.random() < 0.8 else "small"
         phases = [{"kind": "procs", "procs": [{"flavour": "normal", "workload": _workload(rng, need_cfg=True)}], "sched": [], "sched_seed": 0}]
